@@ -171,6 +171,20 @@ def rule_fmt(ctx):
         ctx.ob('C19.fmt', f'{m.fq}', ok, 'EnvGen inputs: gate, levelScale, levelBias, timeScale, doneAction, then the envelope array', m.node, eg.module)
 
 
+def rule_fresh(ctx):
+    ctx.rule('C19.fmt', 'the two server formats are functions of the current fields: no memoized result is returned (nothing resets a '
+                        'cache when levels, times, curves, nodes or offset change, or when range()/copy.copy duplicate the envelope)')
+    ci = env(ctx)
+    for mname in ('_envgen_format', '_interpolation_format'):
+        f = ci.methods[mname]
+        stored = {t.attr for x in walk_local(f.node) if isinstance(x, ast.Assign) for t in x.targets if U.is_self_attr(t)}
+        memo = [norm(r) for r in walk_local(f.node) if isinstance(r, ast.Return) and r.value is not None and U.is_self_attr(r.value)
+                and r.value.attr in stored]
+        ctx.ob('C19.fmt', f'{f.fq}:not-memoized', not memo,
+               f'{mname} returns a stored result ({memo}) that no setter ever invalidates: after range(), duration = x or any assignment '
+               f'the first encoding keeps being sent, and _at() evaluates it', f.node, ci.module)
+
+
 def rule_at(ctx):
     ctx.rule('C19.at', '_env_at reads stride-4 records: level at i, duration at i+1, shape at i+2, curvature at i+3, starting at 4; '
                        'holds the last level afterwards')
@@ -240,10 +254,27 @@ def rule_ctor(ctx):
             ok = False
             why.append('unexpected release node')
         ctx.ob('C19.ctor', key, ok, f'Env.{name} returns Env({", ".join(args)})' + ('; ' + '; '.join(why) if why else ''), c, mod)
+    # parameters are documented as list | float | int: arithmetic on them goes through utl.list_binop, never a bare operator
+    # (list * float raises TypeError, list + list concatenates)
+    for name in CTORS:
+        f = ci.methods[name]
+        params = set(f.params[1:])
+        bare = [norm(b) for b in ast.walk(f.node) if isinstance(b, ast.BinOp) and isinstance(b.op, (ast.Mult, ast.Add, ast.Sub, ast.Div))
+                and (set(U.names_in(b.left)) | set(U.names_in(b.right))) & params
+                and not any(isinstance(p_, ast.Subscript) for p_ in U.parent_chain(b))]
+        ctx.ob('C19.ctor', f'{f.fq}:list-parameters', not bare,
+               f'Env.{name} applies a bare arithmetic operator to its parameters ({bare}); they may be lists (multichannel envelopes)', f.node, mod)
+    pr = ci.methods['pairs']
+    src = full(pr.node)
+    pp = pr.params[1]
+    ok = U.before(src, f'{pp} = [list(i) for i in {pp}]', f'{pp}[i].append(')
+    ctx.ob('C19.ctor', f'{pr.fq}:copies-points', ok,
+           'pairs appends the curve to each point: the points must be copied first (the caller\'s lists are otherwise extended and a '
+           'second call with the same list is refused)', pr.node, mod)
     for name in ('triangle', 'sine'):
         f = ci.methods[name]
         ctx.ob('C19.ctor', f'{f.fq}:half-duration', 'dur = utl.list_binop(operator.mul, dur, 0.5)' in full(f.node), 'each half lasts dur / 2', f.node, mod)
-    for name, pre in (('adsr', '[0, peak_level, peak_level * sustain_level, 0]'), ('dadsr', '[0, 0, peak_level, peak_level * sustain_level, 0]')):
+    for name, pre in (('adsr', '[0, peak_level, utl.list_binop(operator.mul, peak_level, sustain_level), 0]'), ('dadsr', '[0, 0, peak_level, utl.list_binop(operator.mul, peak_level, sustain_level), 0]')):
         f = ci.methods[name]
         c = [s for s in walk_local(f.node) if isinstance(s, ast.Return)][0].value
         if not (isinstance(c, ast.Call) and c.args):
@@ -292,6 +323,7 @@ def rule_ctor(ctx):
 
 
 def run(ctx):
+    rule_fresh(ctx)
     rule_shapes(ctx)
     rule_fmt(ctx)
     rule_at(ctx)
@@ -299,21 +331,28 @@ def run(ctx):
 
 
 MUTANTS = [
+    dict(rule='C19.fmt', name='(fix reverted) _envgen_format memoizes its first result', file='sc3/synth/envelope.py',
+         edits=[('sc3/synth/envelope.py', "    def _envgen_format(self):  # Was asMultichannelArray.\n", "    def _envgen_format(self):  # Was asMultichannelArray.\n        if getattr(self, '_fmt', None):\n            return self._fmt\n"),
+                ('sc3/synth/envelope.py', "        return [tuple(i) for i in utl.flop(contents)]\n\n    def _interpolation_format", "        self._fmt = [tuple(i) for i in utl.flop(contents)]\n        return self._fmt\n\n    def _interpolation_format")]),
+    dict(rule='C19.ctor', name='(fix reverted) adsr multiplies list parameters with *', file='sc3/synth/envelope.py',
+         old="                [0, peak_level, utl.list_binop(\n                    operator.mul, peak_level, sustain_level), 0], bias),", new="                [0, peak_level, peak_level * sustain_level, 0], bias),"),
+    dict(rule='C19.ctor', name='(fix reverted) pairs extends the caller\'s points', file='sc3/synth/envelope.py',
+         old="        pairs = [list(i) for i in pairs]  # Ensures internal state.", new="        pairs = pairs[:]  # Ensures internal state."),
     dict(rule='C19.ctor', name='dadsr built from adsr with an unbiased first level (seed C19-c)', file='sc3/synth/envelope.py',
-         old="        return cls(\n            utl.list_binop(\n                operator.add,\n                [0, 0, peak_level, peak_level * sustain_level, 0], bias),\n            [delay_time, attack_time, decay_time, release_time], curve, 3)",
+         old="        return cls(\n            utl.list_binop(\n                operator.add,\n                [0, 0, peak_level, utl.list_binop(\n                    operator.mul, peak_level, sustain_level), 0], bias),\n            [delay_time, attack_time, decay_time, release_time], curve, 3)",
          new="        env = cls.adsr(\n            attack_time, decay_time, sustain_level,\n            release_time, peak_level, curve, bias)\n        env.levels = [0, *env.levels]\n        env.times = [delay_time, *env.times]\n        env.release_node += 1\n        return env"),
     dict(rule='C19.shapes', name="'wel' mapped to 3", file='sc3/synth/envelope.py', old="        'wel': 4,", new="        'wel': 3,"),
     dict(rule='C19.shapes', name="(fix reverted) 'sqr' missing", file='sc3/synth/envelope.py', old="        'sqr': 6,\n", new=""),
     dict(rule='C19.shapes', name='hold branch deleted from evaluator', file='sc3/synth/envelope.py',
          old="                elif shape == shape_names['hold']:\n                    return start_level\n", new=""),
     dict(rule='C19.fmt', name='time and level appends swapped', file='sc3/synth/envelope.py',
-         old="            contents.append(levels[i + 1])\n            contents.append(times[i])\n            contents.append(type(self)._shape_number(curves[i % len(curves)]))\n            contents.append(type(self)._curve_value(curves[i % len(curves)]))\n\n        self.__envgen_format",
-         new="            contents.append(times[i])\n            contents.append(levels[i + 1])\n            contents.append(type(self)._shape_number(curves[i % len(curves)]))\n            contents.append(type(self)._curve_value(curves[i % len(curves)]))\n\n        self.__envgen_format"),
+         old="            contents.append(levels[i + 1])\n            contents.append(times[i])\n            contents.append(type(self)._shape_number(curves[i % len(curves)]))\n            contents.append(type(self)._curve_value(curves[i % len(curves)]))\n\n        return [tuple(i) for i in utl.flop(contents)]\n\n    def _interpolation_format",
+         new="            contents.append(times[i])\n            contents.append(levels[i + 1])\n            contents.append(type(self)._shape_number(curves[i % len(curves)]))\n            contents.append(type(self)._curve_value(curves[i % len(curves)]))\n\n        return [tuple(i) for i in utl.flop(contents)]\n\n    def _interpolation_format"),
     dict(rule='C19.fmt', name='absent node encoded as -1', file='sc3/synth/envelope.py',
          old="        aux_input = gpp.ugen_param(self.loop_node)._as_ugen_input()\n        if aux_input is None:\n            aux_input = -99", new="        aux_input = gpp.ugen_param(self.loop_node)._as_ugen_input()\n        if aux_input is None:\n            aux_input = -1"),
     dict(rule='C19.fmt', name='curves not wrapped', file='sc3/synth/envelope.py',
-         old="            contents.append(type(self)._shape_number(curves[i % len(curves)]))\n            contents.append(type(self)._curve_value(curves[i % len(curves)]))\n\n        self.__envgen_format",
-         new="            contents.append(type(self)._shape_number(curves[i]))\n            contents.append(type(self)._curve_value(curves[i % len(curves)]))\n\n        self.__envgen_format"),
+         old="            contents.append(type(self)._shape_number(curves[i % len(curves)]))\n            contents.append(type(self)._curve_value(curves[i % len(curves)]))\n\n        return [tuple(i) for i in utl.flop(contents)]\n\n    def _interpolation_format",
+         new="            contents.append(type(self)._shape_number(curves[i]))\n            contents.append(type(self)._curve_value(curves[i % len(curves)]))\n\n        return [tuple(i) for i in utl.flop(contents)]\n\n    def _interpolation_format"),
     dict(rule='C19.at', name='shape read at i + 1', file='sc3/synth/envelope.py', old="                shape = data[i + 2]", new="                shape = data[i + 1]"),
     dict(rule='C19.at', name='records start at 3', file='sc3/synth/envelope.py', old="        for i in range(4, num_stages * 4 + 1, 4):", new="        for i in range(3, num_stages * 4 + 1, 4):"),
     dict(rule='C19.ctor', name='adsr release node 1', file='sc3/synth/envelope.py',
